@@ -10,6 +10,20 @@ free generator cannot reach within its operation bound because it needs two inde
   gappar   a nested array / map is created, an independent operation follows, then the first element of the nested type
   gapkey   the same for map entries (overwrite / remove vs. independent key)
 
+Rich-text families (formatting marks and the automatic clean-up, see spec/Rich.tla): the script fixes the local
+operations, TLC enumerates WHO HAS SEEN WHAT (exchanges among the authors - an operation on an index a replica does
+not have yet is not enabled) and every delivery order to the observer, which runs with the clean-up on in most schedules:
+
+  fmtdup   concurrent formats of the same range, same key and value (duplicate marks: what the clean-up removes), then a
+           third operation that deletes / overrides one of the duplicates (unformat, reformat, delete the text)
+  fmtovl   concurrent formats of overlapping ranges: same key same value / same key other value / other key; nested ranges
+  fmtdel   format vs concurrent delete of a boundary unit / of the whole range / insert at a boundary
+  fmtovw   format, then overwrite a part, then clear; concurrent clear by the other author
+  fmtins   insert_with_attributes (marks around the new units, negated marks behind them) next to / inside formatted ranges,
+           concurrent attributed inserts at one position, then a delete / format that meets those marks
+  fmthole  a mark next to a hole: the format is emitted after an independent operation of the same author (the observer
+           integrates the marks beyond a gap), and a deletion that waits for a withheld mark
+
 Run after changing the families; the outputs are committed (the checks never regenerate them)."""
 import json
 import os
@@ -17,8 +31,73 @@ import os
 V = os.path.dirname(os.path.dirname(os.path.abspath(__file__)))
 
 
-def op(a, r, c, i=0, n=1, k="u", key=""):
-    return {"a": a, "r": r, "c": c, "i": i, "n": n, "k": k, "key": key}
+def op(a, r, c, i=0, n=1, k="u", key="", v=None):
+    o = {"a": a, "r": r, "c": c, "i": i, "n": n, "k": k, "key": key}
+    if v is not None:
+        o["v"] = v
+    return o
+
+
+def fmt(r, i, n, key="b", v="x"):
+    return op("fmt", r, "t", i, n, key=key, v=v)
+
+
+def insa(r, i, n=1, key="b", v="x"):
+    return op("insa", r, "t", i, n, key=key, v=v)
+
+
+def rich_families():
+    fam = {}
+    txt = lambda n: op("ins", 1, "t", 0, n)  # noqa: E731  the text both authors work on (one block of n units by author 1)
+    # fmtdup: duplicates, then something that removes one of them
+    s = []
+    for third in (fmt(2, 0, 1, v="null"), fmt(1, 0, 1, v="null"), fmt(2, 0, 1, v="y"), op("del", 2, "t", 0, 1), op("ins", 2, "t", 0), op("ins", 1, "t", 1)):
+        s.append(([txt(1), fmt(1, 0, 1), fmt(2, 0, 1), third], [1, 2]))
+    for third in (fmt(2, 0, 2, v="null"), fmt(1, 1, 1, v="null"), op("del", 2, "t", 0, 2), op("del", 1, "t", 1, 1)):
+        s.append(([txt(2), fmt(1, 0, 2), fmt(2, 0, 2), third], [1, 2]))
+    # three authors: the unformatting one has seen only one of the duplicates (scripted through who-has-seen-what)
+    s.append(([txt(1), fmt(1, 0, 1), fmt(2, 0, 1), fmt(3, 0, 1, v="null")], [1, 2, 3]))
+    s.append(([txt(1), fmt(1, 0, 1), fmt(2, 0, 1), fmt(3, 0, 1, v="x")], [1, 2, 3]))
+    fam["fmtdup"] = s
+    # fmtovl: overlapping ranges over "abc"
+    s = []
+    for key2, v2 in (("b", "x"), ("b", "y"), ("i", "x"), ("b", "null")):
+        s.append(([txt(3), fmt(1, 0, 2), fmt(2, 1, 2, key=key2, v=v2)], [1, 2]))
+        s.append(([txt(3), fmt(1, 0, 3), fmt(2, 1, 1, key=key2, v=v2)], [1, 2]))          # nested
+        s.append(([txt(3), fmt(1, 0, 2), fmt(2, 1, 2, key=key2, v=v2), fmt(1, 0, 3, v="null")], [1, 2]))
+    fam["fmtovl"] = s
+    # fmtdel: format vs delete / insert at the boundaries
+    s = []
+    for other in (op("del", 2, "t", 0, 1), op("del", 2, "t", 1, 1), op("del", 2, "t", 2, 1), op("del", 2, "t", 0, 2), op("del", 2, "t", 0, 3),
+                  op("ins", 2, "t", 0), op("ins", 2, "t", 2), op("ins", 2, "t", 1)):
+        s.append(([txt(3), fmt(1, 0, 2), other], [1, 2]))
+        s.append(([txt(3), fmt(1, 0, 2), other, fmt(2, 0, 1, v="y")], [1, 2]))
+    fam["fmtdel"] = s
+    # fmtovw: format, overwrite a part, clear
+    s = []
+    for a2 in (1, 2):
+        s.append(([txt(3), fmt(1, 0, 3), fmt(1, 1, 1, v="y"), fmt(a2, 0, 3, v="null")], [1, 2]))
+        s.append(([txt(3), fmt(1, 0, 3), fmt(a2, 0, 3, v="y"), fmt(1, 0, 3, v="x")], [1, 2]))
+        s.append(([txt(2), fmt(1, 0, 2), fmt(a2, 0, 2, v="null"), fmt(1, 0, 2), fmt(a2, 1, 1, v="null")], [1, 2]))
+        s.append(([txt(2), fmt(1, 0, 1), fmt(1, 1, 1), fmt(a2, 0, 2, v="null"), op("del", 1, "t", 0, 1)], [1, 2]))
+    fam["fmtovw"] = s
+    # fmtins: attributed inserts
+    s = []
+    for a2 in (1, 2):
+        s.append(([txt(2), fmt(1, 0, 2), insa(a2, 1, v="null"), fmt(1, 0, 2, v="null")], [1, 2]))      # plain island inside bold, then clear
+        s.append(([txt(2), insa(1, 1), insa(2, 1), op("del", a2, "t", 1, 1)], [1, 2]))                  # concurrent attributed inserts, same place
+        s.append(([txt(1), insa(1, 1), fmt(2, 0, 1), op("del", 1, "t", 1, 1)], [1, 2]))                 # bold tail typed, head formatted, tail deleted
+        s.append(([txt(2), insa(1, 1, v="x"), insa(a2, 2, v="y"), fmt(2, 0, 2, v="null")], [1, 2]))
+        s.append(([txt(2), fmt(1, 1, 1), insa(a2, 1, key="i"), op("ins", 2, "t", 1)], [1, 2]))          # other key at the boundary, plain insert next to it
+    fam["fmtins"] = s
+    # fmthole: marks beyond a gap (independent operation of the same author in between), deletion waiting for a mark
+    s = []
+    for a2 in (1, 2):
+        s.append(([txt(2), op("ins", 1, "a", 0), fmt(1, 0, 1), fmt(a2, 0, 2)], [1, 2]))
+        s.append(([txt(2), fmt(1, 0, 2), op("ins", 1, "a", 0), fmt(1, 0, 1, v="null"), fmt(a2, 0, 2, v="null")], [1, 2]))
+        s.append(([txt(2), fmt(1, 0, 1), op("ins", 1, "a", 0), op("del", 1, "t", 0, 1), fmt(a2, 0, 1, v="y")], [1, 2]))
+    fam["fmthole"] = s
+    return fam
 
 
 def families():
@@ -68,11 +147,13 @@ def families():
         scripts.append(([op("set", a, "m", key="k1"), op("set", a, "m", key="k1"), op("rem", a, "m", key="k1"), op("set", b, "m", key="k1"), op("set", a, "m", key="k1")], [1, 2]))
         scripts.append(([op("set", a, "m", key="k1"), op("set", a, "m", key="k1"), op("set", a, "m", key="k1"), op("set", b, "m", key="k1"), op("rem", a, "m", key="k1"), op("set", a, "m", key="k1")], [1, 2]))
     fam["gapkey"] = scripts
+    fam.update(rich_families())
     return fam
 
 
 def tla_rec(o):
-    return "[a |-> \"%s\", r |-> %d, c |-> \"%s\", i |-> %d, n |-> %d, k |-> \"%s\", key |-> \"%s\"]" % (o["a"], o["r"], o["c"], o["i"], o["n"], o["k"], o["key"])
+    extra = ", v |-> \"%s\"" % o["v"] if "v" in o else ""
+    return "[a |-> \"%s\", r |-> %d, c |-> \"%s\", i |-> %d, n |-> %d, k |-> \"%s\", key |-> \"%s\"%s]" % (o["a"], o["r"], o["c"], o["i"], o["n"], o["k"], o["key"], extra)
 
 
 def main():
